@@ -658,6 +658,13 @@ func genCommits(rng *rand.Rand, c config, long bool) []string {
 						variant = badVariants[rng.Intn(len(badVariants))]
 					case y == 2:
 						variant = fmt.Sprintf("sigby=%d", rng.Intn(total))
+					case y == 3 && tip > 0:
+						// a genuine commit for another own block (inside the accepted window when possible)
+						h2 := cand[rng.Intn(len(cand))]
+						if h2 == 0 || h2 > tip || rng.Intn(3) == 0 {
+							h2 = 1 + uint32(rng.Intn(int(tip)))
+						}
+						variant = fmt.Sprintf("relabel=%d", h2)
 					}
 					parts[j] = fmt.Sprintf("%d:%d:%s", v, h, variant)
 				}
